@@ -542,6 +542,18 @@ func (p *c09) checkUpdate(x *res, s c09Str, names map[string]string, values val.
 			if upd.Class == adapt.ClsOK && !sentence {
 				x.viol("client-accepts-non-sentence", "update", fmt.Sprintf("[%s] UpdateItem %q (%s), which is not a sentence, succeeded", adapter, s.s, s.kind), w2)
 			}
+			// the same string behind a condition that is FALSE (an item that does not exist, guarded by attribute_exists):
+			// a string that is no sentence makes the request invalid, it is not answered as if only the condition had failed
+			if s.s != "" {
+				hid := cl.Do(adapt.Op{Kind: adapt.OpUpdate, Table: spec.Name, Key: val.Item{"h": val.Str("absent")}, Update: s.s, Names: n2, Values: v2, Cond: "attribute_exists(h)"})
+				x.r.Evals++
+				x.r.Counters["updates_behind_a_false_condition"]++
+				if hid.Class == adapt.ClsRuntime {
+					x.viol("client-runtime-panic", hid.Site, fmt.Sprintf("[%s] UpdateItem %q with a false condition: runtime panic at %s: %s", adapter, s.s, hid.Site, hid.Msg), w2)
+				} else if !sentence && (hid.Class == adapt.ClsCondFailed || hid.Class == adapt.ClsOK) {
+					x.viol("client-accepts-non-sentence", "update-behind-a-false-condition", fmt.Sprintf("[%s] UpdateItem %q (%s), which is not a sentence, with a condition that is false: answered %s - the malformed expression went unnoticed", adapter, s.s, s.kind, hid.Class), map[string]interface{}{"adapter": adapter, "expression": s.s, "derived_by": s.kind, "names": n2, "values": v2, "update": hid})
+				}
+			}
 		}
 	}
 }
